@@ -182,7 +182,22 @@ extern uint8_t g_rx_octet;   /* octet g_k of the request payload at entry (pinne
 #ifdef REGP_USE_WIRE_H
 #define REGP_PROC_OWNS_RESPONDERS 1
 #include "contracts/regp-wire.h"
+/* parse_frame's contract (C07) pins the payload checksum by the ghost trace of
+ * C16, so it wants the trace of the frame's payload octets and caps the frame
+ * at 16 + CRC_NMAX octets.  A trace exists for every content; the (assumed)
+ * decoder contract hands the receiver a block whose content the trace
+ * describes.  This caps the length of frames that reach parse_frame (tier
+ * A-len), not the block size. */
+#define RPP_DEC_FRAME_CAP(sink) \
+  IMPLIES(RPP_DEC_CS(sink)->buffer.data != NULL && RPP_DEC_CS(sink)->error.id == 0, \
+    !__CPROVER_same_object(g_crcT, RPP_DEC_CS(sink)->buffer.data) \
+    && RPW_PF_N(&RPP_DEC_CS(sink)->buffer) <= REGP_PF_MAX \
+    && IMPLIES(RPW_PF_N(&RPP_DEC_CS(sink)->buffer) >= 12u, \
+         RPW_PF_N(&RPP_DEC_CS(sink)->buffer) <= RPW_PF_HLEN(&RPP_DEC_CS(sink)->buffer) + CRC_NMAX \
+         && REGP_PF_TRACE_OK(&RPP_DEC_CS(sink)->buffer)))
+#define RPP_RECV_TRACE_REQ (__CPROVER_r_ok(g_crcT, (REGP_PF_MAX + 1u) * sizeof(uint16_t)))
 #else
+#define RPP_RECV_TRACE_REQ 1
 extern size_t g_tx_count;
 extern uint8_t g_tx_hdr[16];
 extern size_t g_tx_hs;
@@ -800,16 +815,21 @@ int regp_recv(RegP *p, RPMaybeFrame *mf)
 __CPROVER_requires(RPP_P_MIN(p) && RPP_ALLOC_OK(p->alloc))
 __CPROVER_requires(__CPROVER_rw_ok(mf, sizeof(RPMaybeFrame)) && !__CPROVER_same_object(p, mf)
     && !__CPROVER_same_object(mf, p->alloc) && !__CPROVER_same_object(p, p->alloc))
+__CPROVER_requires(RPP_RECV_TRACE_REQ)
 /* ledger of this receive starts clean */
 __CPROVER_requires(g_al_allocs == 0 && g_al_live == 0 && g_al_frees == 0)
 __CPROVER_assigns(mf->frame, mf->error, RPP_TX_GHOSTS, g_al_allocs, g_al_live, g_al_block, g_al_frees,
     g_dec_rc, g_dec_id, g_dec_len)
+/* --- a returned frame is a block of exactly the allocator's size (first: as
+ *     an assumed clause it chooses the pointer) --- */
+__CPROVER_ensures(mf->frame == NULL || __CPROVER_is_fresh(mf->frame, p->alloc->blocksize))
 /* --- resource exactness: at most one block is obtained; it is either handed
  *     to the caller in mf->frame (to be released by regp_free) or was
  *     released by the receiver --- */
-__CPROVER_ensures(g_al_allocs <= 1 && g_al_frees <= g_al_allocs)
+__CPROVER_ensures(g_al_allocs <= 1 && g_al_frees + g_al_live <= g_al_allocs)
 __CPROVER_ensures(g_al_live == (mf->frame != NULL ? 1u : 0u))
 __CPROVER_ensures(IMPLIES(mf->frame != NULL, (void *)mf->frame == g_al_block))
+__CPROVER_ensures(g_dec_id == 0 || g_dec_id == EBUSY || g_dec_id == ENOMEM)
 /* --- channel error: returned unchanged, nothing handed out, nothing kept,
  *     nothing sent --- */
 __CPROVER_ensures(IMPLIES(g_dec_rc < 0,
@@ -837,8 +857,7 @@ __CPROVER_ensures(IMPLIES(g_dec_rc >= 0 && g_dec_id == 0 && RPP_ID_PARSED(mf->er
     RPP_TX_NONE && __CPROVER_return_value == 0 && mf->frame != NULL))
 /* --- what regp_process relies on --- */
 __CPROVER_ensures(IMPLIES(g_dec_rc >= 0 && mf->frame != NULL,
-    __CPROVER_rw_ok(mf->frame, p->alloc->blocksize)
-    && IMPLIES(RPP_ID_PARSED(mf->error.id),
+    IMPLIES(RPP_ID_PARSED(mf->error.id),
                RPP_HDR_PARSED(mf->frame) && mf->frame->raw.size <= p->alloc->blocksize - sizeof(RPFrame)
                && mf->frame->raw.size == g_dec_len)
     && IMPLIES(mf->error.id == 0, RPP_PLAUSIBLE(mf->frame))))
